@@ -35,14 +35,14 @@ class NtView:
             raise AnalysisError("C07: compute_correlations_nt no longer returns (times, values) "
                                 "as two local variables")
         self.ret_times, self.ret_corr = [e.id for e in rets[0].value.elts]
-        sched = [st for st in walk_local(self.u.node) if isinstance(st, ast.Assign)
-                 and isinstance(st.value, ast.Call)
-                 and call_name(st.value) == "_schedule_nt_correlations"
-                 and isinstance(st.targets[0], ast.Tuple) and len(st.targets[0].elts) == 2
-                 and all(isinstance(e, ast.Name) for e in st.targets[0].elts)]
-        if len(sched) != 1:
+        # the two outputs of the scheduler, however they are taken apart (DefUse gives tuple
+        # unpacking and indexing of a temporary the same shape)
+        outs = {d.sel[0][1]: d.name for d in self.du.defs
+                if isinstance(d.value, ast.Call) and call_name(d.value) == "_schedule_nt_correlations"
+                and d.sel and d.sel[0][0] == "idx"}
+        if set(outs) != {0, 1}:
             raise AnalysisError("C07: `schedule, indices = _schedule_nt_correlations(..)` not found")
-        self.schedule, self.sch_indices = [e.id for e in sched[0].targets[0].elts]
+        self.schedule, self.sch_indices = outs[0], outs[1]
         calls = [c for c in walk_local(self.u.node) if isinstance(c, ast.Call)
                  and call_name(c) == "_compute_ordered_nt_correlations"]
         if len(calls) != 1:
